@@ -257,4 +257,35 @@ def mergeCond2 {n1 n2 m : Nat} (validate : Bool)
     .ok (Pinned.inverse x12y ay ax12)
 
 
+/-- `InverseCondition::inverse` as it was before fix e624e49 (max_u_yx divided by base rates inside the zero-tolerance band) -/
+def inverseBeforeBandFix (conds : CondTab α n m) (ax : Tab α n) (ay : Tab α m) : CondTab α m n :=
+  let pyx : Vector (Tab α m) n := conds.map fun c => c.projection ay
+  let uyx : Tab α n := Vector.ofFn fun x => (conds[x]).maxUncertainty ay
+  let temp : Vector (Tab α n) m := Vector.ofFn fun y =>
+    let allZero := (List.finRange n).all fun x => isZero (pyx[x])[y]
+    if allZero then Vector.replicate n Scalar.one
+    else
+      let q := Tab.sumIter (Vector.ofFn fun x : Fin n => ax[x] * (pyx[x])[y])
+      Vector.ofFn fun x => (pyx[x])[y] / q
+  let pxy : Vector (Tab α n) m := Vector.ofFn fun y => Vector.ofFn fun x => (temp[y])[x] * ax[x]
+  let irrel : Tab α m := Vector.ofFn fun y =>
+    Scalar.one - Tab.reduceMax (Vector.ofFn fun x : Fin n => (pyx[x])[y])
+      + Tab.reduceMin (Vector.ofFn fun x : Fin n => (pyx[x])[y])
+  let maxUxy : Tab α m := Vector.ofFn fun y => Tab.reduceMin (temp[y])
+  let uyxSum := Tab.sumIter uyx
+  let weights : Tab α n :=
+    if Scalar.eq uyxSum Scalar.zero then Vector.replicate n Scalar.zero
+    else Vector.ofFn fun x => uyx[x] / uyxSum
+  let maxUyx : Tab α n := Vector.ofFn fun x =>
+    Tab.reduceMin (Vector.ofFn fun y : Fin m => (pyx[x])[y] / ay[y])
+  let weightedU : Tab α n := Vector.ofFn fun x =>
+    let u := maxUyx[x]
+    if isZero u then Scalar.zero else weights[x] * uyx[x] / u
+  let wprop := Tab.sumIter weightedU
+  Vector.ofFn fun y =>
+    let u := maxUxy[y] * (wprop + irrel[y] - wprop * irrel[y])
+    let b : Tab α n := Vector.ofFn fun x => (pxy[y])[x] - u * ax[x]
+    Simplex.normalized b u
+
+
 end SLV.Pinned
